@@ -515,6 +515,11 @@ class IpModel:
                     pb_seen = it[2][0]
                     ok_iter = True
                     V = ("sub", pb_seen, ("slice", None, ("loopvar", il.uid, il.iter, (0,)), None))
+                elif getattr(il, "enum_start", "absent") in (None, ("const", 0)) and any(x == ("loopindex", il.uid) for ibp_ in il.body_paths for e_ in ibp_.effects for t_ in (e_.a, e_.b, e_.c) if isinstance(t_, tuple) for x in subterms(t_)):
+                    # form B after normalisation (`for pos, _ in enumerate(PB)` is a loop over PB with a running index): V = PB[:pos]
+                    pb_seen = it
+                    ok_iter = True
+                    V = ("sub", pb_seen, ("slice", None, ("loopindex", il.uid), None))
                 else:
                     # form C: prefix = ""; for bit in PB: pin(prefix); prefix += bit
                     bitv = ("loopvar", il.uid, il.iter, ())
